@@ -534,7 +534,10 @@ def _single_step():
     # the step-composition lemma needs the protocol of a step: reset first, then the plan built from the sinks of the
     # current phase, then the controller is run (NumpyInterpreter.run_single_step; contract shared with C01 / C11)
     from .steploop import SingleStepInterp
-    return [FunctionUnit(SingleStepInterp())]
+    from pyvc.contracts import FilteredUnit
+    # only the protocol clauses: where next_phase is moved and what the clean-up leaves are C01's / C11's subjects
+    return [FilteredUnit(FunctionUnit(SingleStepInterp()),
+                         lambda n: "/protocol/" in n or "the-body-ran" in n or "no-exception(KeyError)" in n)]
 
 
 LEVEL = "proof"
